@@ -263,6 +263,26 @@ static bool mode_pton_grammar() {
             if (!expect_mask(t + "*", net, 16 * k, true)) return false;
         }
     }
+    // mixed notation: hex groups followed by a dotted quad, with all six groups written out or with "::" somewhere;
+    // the expected bits come from inet_pton
+    for (int i = 0; i < NG; i++) for (int a = 0; a < NO; a += 2) for (int c = 1; c < NO; c += 3) {
+        const char *forms[] = {"%x:%x:%x:%x:%x:%x:%d.%d.%d.%d", "%x:%x:%x:%x:%x::%d.%d.%d.%d", "%x::%x:%d.%d.%d.%d", "0:0:0:0:0:%x:%d.%d.%d.%d", "%x:0:0:0:0:ffff:%d.%d.%d.%d"};
+        for (int f = 0; f < 5; f++) {
+            int j = (i + a + c) % NG;
+            switch (f) {
+            case 0: snprintf(b, sizeof b, forms[0], gv[i], gv[j], gv[(i + 1) % NG], gv[(j + 2) % NG], gv[(i + 3) % NG], gv[(j + 1) % NG], oct[a], oct[c], oct[c], oct[a]); break;
+            case 1: snprintf(b, sizeof b, forms[1], gv[i], gv[j], gv[(i + 1) % NG], gv[(j + 2) % NG], gv[(i + 3) % NG], oct[a], oct[c], oct[c], oct[a]); break;
+            case 2: snprintf(b, sizeof b, forms[2], gv[i], gv[j], oct[a], oct[c], oct[c], oct[a]); break;
+            case 3: snprintf(b, sizeof b, forms[3], gv[i], oct[a], oct[c], oct[c], oct[a]); break;
+            default: snprintf(b, sizeof b, forms[4], gv[i], oct[a], oct[c], oct[c], oct[a]); break;
+            }
+            struct in6_addr ia;
+            if (inet_pton(AF_INET6, b, &ia) != 1) continue;
+            uint16_t net[8];
+            for (int q = 0; q < 8; q++) net[q] = (uint16_t)((ia.s6_addr[2 * q] << 8) | ia.s6_addr[2 * q + 1]);
+            if (!expect_mask(b, net, 128, true)) return false;
+        }
+    }
     uint16_t z[8] = {0, 0, 0, 0, 0, 0, 0, 0};
     if (!expect_mask("*", z, 0, true)) return false;
     if (!expect_mask("***", z, 0, true)) return false;
